@@ -78,6 +78,7 @@ def run(res, args):
             x = g.doc()
         if x:
             xs.append(x)
+    xs += [xmlgen.syncml_xml(rng) for _ in range(120 if quick else 5000)]
     opts = [(rng.choice([0, 1, 2, 3]), rng.choice([0, 1]), rng.choice([0, 1]), rng.choice([0, 0, 1])) for _ in xs]   # version keepws strtbl anonymous
     # sources in other declared encodings (the header must still say UTF-8: the body is always UTF-8)
     for x in rng.sample(docs, 12) + [g.doc() for _ in range(12)]:
@@ -163,6 +164,19 @@ def run(res, args):
                 seen_known.add((k['property'], k['id'], k['what']))
             else:
                 viol.append((i, 'decoded document differs from the source: ' + diff, ''))
+        elif lang['ns'] is not None:
+            # same names everywhere: the elements must also sit in the same namespaces (several code pages
+            # carry the same local names; the source names its namespace, the token its code page)
+            nsmap = {r[1]: bytes.fromhex(r[0]) for r in d['tables'][str(lang['ns'])]['rows']}
+            s_el = [e[1] for e in sdoc if e[0] == 'S']
+            d_el = [(e[1], e[3]) for e in pev if e[0] == 'S']
+            if len(s_el) == len(d_el):
+                stats['namespaces_compared'] = stats.get('namespaces_compared', 0) + 1
+                for sn, (dn, pg) in zip(s_el, d_el):
+                    # (a namespace the language does not know is no statement about code pages: names are then resolved by name alone)
+                    if b'|' in sn and pg is not None and pg in nsmap and sn.rsplit(b'|', 1)[0] in nsmap.values() and sn.rsplit(b'|', 1)[0] != nsmap[pg]:
+                        viol.append((i, f'element {docmp.local(sn)} is in namespace {sn.rsplit(b"|", 1)[0]} in the source but encoded in code page {pg} ({nsmap[pg]})', ''))
+                        break
     for prop, kid, what in sorted(seen_known):
         if prop == 'C06':
             res.known.append(f'{kid}: {what}')
